@@ -20,11 +20,11 @@ def grid(chk, tier):
     out = set()
     q = tier == 'quick'
     # sign x integer part x up to 4 fractional digits (every tie case) on a grid
-    ips = [0, 1, 2, 5, 9, 10, 12, 99, 100, 1234] if q else list(range(0, 130)) + [999, 1000, 1234, 99999]
+    ips = [0, 1, 2, 5, 9, 10, 12, 99, 100, 1234] if q else list(range(0, 13)) + [19, 20, 49, 50, 99, 100, 101, 127, 128, 255, 256, 999, 1000, 1234, 4095, 4096, 99999]
     for ip in ips:
         fracs = set()
         for k in range(1, 5):
-            step = 1 if (k <= 2 or not q) else 10 ** (k - 2) * 3 + 1
+            step = 1 if (k <= 2 or (not q and k == 3)) else (13 if not q else 10 ** (k - 2) * 3 + 1)
             for f in range(0, 10 ** k, step):
                 fracs.add((f, k))
             for t in range(10 ** (k - 1)):          # ties at every shorter precision: ...5
@@ -65,10 +65,13 @@ def run(tier, seed):
     for digits, exp in g:
         x = float(dec_text(digits, exp))
         for mode in MODES:
-            for n in (rng.sample(ns, 3) if tier == 'quick' else ns):
+            for n in rng.sample(ns, 3 if tier == 'quick' else 4):
                 got = core.outcome(fns[mode], x, n)
                 cases.append(('rnd %s I%d I%d %s I%d' % (mode, digits, exp, core.enc(x), n), got,
                               {'fn': XL[mode], 'number': dec_text(digits, exp), 'digits': n}))
+        if len(cases) >= 200000:         # judged in chunks: the thorough grid has millions of cases
+            chk.judge('round-helpers', cases)
+            cases = []
     chk.judge('round-helpers', cases)
     flags_bad = 0
     # integers (ROUND(1250,-2) etc.)
